@@ -66,13 +66,24 @@ func vc13ServerOf(evl EventLoop) *server {
 	}
 }
 
-func vc13Tracked(s *server) (fds []int, dead []string) {
+// vc13Tracked lists the server's table. An entry is *dead* only when the close callbacks of its
+// connection have completed (they include the delete) and it is still there; a connection in
+// the middle of its teardown is legitimately still tracked.
+func vc13Tracked(s *server, recs []*vcConnRec) (fds []int, dead []string) {
+	done := map[uintptr]bool{}
+	for _, r := range recs {
+		select {
+		case <-r.done:
+			done[r.ID] = true
+		default:
+		}
+	}
 	s.connections.Range(func(k, v interface{}) bool {
 		fd, _ := k.(int)
 		fds = append(fds, fd)
 		if c, ok := v.(*connection); ok {
-			if !c.IsActive() {
-				dead = append(dead, fmt.Sprintf("fd=%d active=false", fd))
+			if !c.IsActive() && done[vcObjID(c)] {
+				dead = append(dead, fmt.Sprintf("fd=%d active=false close-callbacks-done=true", fd))
 			}
 		}
 		return true
@@ -272,7 +283,15 @@ func vcRunC13(t *vcTrial, cfg vc13Cfg) {
 	shErr := srv.Evl.Shutdown(ctx)
 	retAt := time.Now()
 	_ = t0
-	tracked, dead := vc13Tracked(svr)
+	mu.Lock()
+	recsNow := append([]*vcConnRec(nil), recs...)
+	mu.Unlock()
+	tracked, dead := vc13Tracked(svr, recsNow)
+	if len(dead) > 0 {
+		// the delete is the last but one close callback: give a teardown in progress a moment
+		time.Sleep(20 * time.Millisecond)
+		_, dead = vc13Tracked(svr, recsNow)
+	}
 	vcSetPlan(nil)
 	if srv.Network == "unix" {
 		defer syscall.Unlink(srv.Addr)
